@@ -3,7 +3,7 @@
 id="$1"; x="$2"; chk="${3:-$id}"
 src="/tmp/seed-out/$id/$x"; [ -d "$src" ] || src="/verif/seeded/$id-$x"
 wt=$(mktemp -d /tmp/sw-XXXXXX); rmdir "$wt"
-git -C /repo worktree add -q --detach "$wt" HEAD || exit 2
+flock /tmp/wt.lock git -C /repo worktree add -q --detach "$wt" HEAD || exit 2
 clean=$(cd "$wt" && MLREPO="$wt" timeout 900 /venv/bin/python "$src/demo.py" >/dev/null 2>&1; echo $?)
 if ! ( cd "$wt" && { git apply "$src/patch.diff" 2>/dev/null || patch -p1 -s -F3 --no-backup-if-mismatch < "$src/patch.diff"; } ); then git -C /repo worktree remove --force "$wt"; echo "SEED $id-$x: patch does not apply"; exit 2; fi
 patched=$(cd "$wt" && MLREPO="$wt" timeout 900 /venv/bin/python "$src/demo.py" >/dev/null 2>&1; echo $?)
@@ -28,4 +28,4 @@ c.setdefault("checks", {})[chk] = {"cmd": "VERIF_REPO=<worktree+patch> ./check %
 json.dump(m, open(p, "w"), indent=1)
 PY
 fi
-git -C /repo worktree remove --force "$wt"; rm -rf "$ev"
+flock /tmp/wt.lock git -C /repo worktree remove --force "$wt"; rm -rf "$ev"
